@@ -359,8 +359,17 @@ class LongLived:
     objs = {}
     on = False
 
+    repoint = False
+
     @classmethod
     def get(cls, psutil, world, pid):
+        if cls.repoint:
+            # the object is created, THEN psutil.PROCFS_PATH is pointed somewhere else (nothing mounted there): an object keeps
+            # reading the procfs it was created on
+            o = psutil.Process(pid)
+            psutil.PROCFS_PATH = "/.procfs-path-repointed-after-creation"
+            cls._restore = (psutil, world.procfs)
+            return o
         if not cls.on:
             return psutil.Process(pid)
         key = (id(world), pid)
@@ -370,10 +379,18 @@ class LongLived:
         return o[1]
 
     @classmethod
-    def both(cls, fn, case, st, skip=lambda case: False):
+    def both(cls, fn, case, st, skip=lambda case: False, repoint=False):
         """fn(case, st) with a fresh object, then (unless skip(case)) with the long-lived one"""
         cls.on = False
         bad = fn(case, st)
+        if repoint and not skip(case):
+            cls.repoint, cls._restore = True, None
+            try:
+                bad = bad + [("after-PROCFS_PATH-was-repointed:" + c, m) for c, m in fn(case, st)]
+            finally:
+                cls.repoint = False
+                if cls._restore:
+                    cls._restore[0].PROCFS_PATH = cls._restore[1]
         if not skip(case):
             cls.on = True
             try:
